@@ -11,12 +11,17 @@ declare -A checks=(
  [b06_rename_local_2]="C05"
  [b07_fallback_named_condition]="C10"
  [b08_swap_field_writes_execution]="C08 C17 C15"
+ [b09_extract_helper_retry]="C02 C16"
+ [x01_rename_contract_named_local_hedge]="C09"
+ [x02_range_to_index_loop]="C12"
 )
+# x*: edits that rename a local an invariant names, or change a loop's shape: no verdict is possible (exit 2, UNDECIDED);
+# what must never happen is exit 1 / a VIOLATION line.
 for f in selftest/benign/*.diff; do
   n=$(basename $f .diff)
   for c in ${checks[$n]}; do
     out=$(scripts/mutant.sh /verif/$f $c --no-replay 2>&1)
     rc=$(echo "$out" | grep -o 'exit=[0-9]*' | tail -1)
-    if [ "$rc" = "exit=0" ]; then echo "$n $c pass"; else echo "$n $c ALARM ($rc)"; echo "$out" | grep -E "^(VIOLATION|UNDECIDED|undecided)" | cut -c1-260 | head -4; fi
+    if [ "$rc" = "exit=0" ]; then echo "$n $c pass"; elif [ "$rc" = "exit=2" ] && ! echo "$out" | grep -q "^VIOLATION"; then echo "$n $c undecided (exit 2, no VIOLATION line)"; else echo "$n $c ALARM ($rc)"; echo "$out" | grep -E "^(VIOLATION|UNDECIDED|undecided)" | cut -c1-260 | head -4; fi
   done
 done
